@@ -368,6 +368,45 @@ def strat_tool(draw):
             'flags': draw(st.lists(st.sampled_from(['--no-polarity-flips', '--no-variables-permutation', '--no-clauses-permutation']), unique=True))}
 
 
+def run_pipe(case):
+    """the real cnfshuffle process reading the formula from a pipe (a stream that cannot be rewound)"""
+    from checks.c17 import parse_dimacs
+    F = case['F']
+    Fc = [list(c) for c in F['clauses']]
+    n = F['n']
+    text = ''.join(case['head']) + dimacs_text(F)
+    args = ['--seed', str(case['seed'])] + case['flags']
+    what = "cnfshuffle {} reading {!r} from a pipe".format(' '.join(args), text[:60])
+    r = cli.run_subprocess('cnfshuffle', args, stdin_text=text, hashseed=case['hashseed'])
+    if r.code != 0:
+        raise Violation("{}: exit status {} and {!r}".format(what, r.code, (r.out + r.err)[-300:]))
+    n2, m2, out, _ = parse_dimacs(r.out)
+    if n2 is None:
+        raise Violation("{}: the output is not DIMACS: {!r}".format(what, r.out[:200]))
+    consequences(Fc, n, n2, out, what)
+    fixed = [k for f, k in (('-p', 'flips'), ('-v', 'perm'), ('-c', 'clauses')) if f in case['flags']]
+    if len(Fc) <= 8 and n <= 8 and not search_witness(Fc, n, out):
+        raise Violation("{}: output is not a signed renaming + clause permutation of the input".format(what))
+    if len(fixed) == 3 and out != Fc:
+        raise Violation("{}: everything switched off but the clauses changed".format(what))
+    return Outcome(labels=['pipe', 'headerless' if not case['head'] else 'with-comments'], nontrivial=n >= 3 and len(Fc) >= 3)
+
+
+def enum_pipe(tier):
+    forms = [{'n': 3, 'clauses': [[1, -2], [2, 3], [-1, -3, 2]]}, {'n': 4, 'clauses': [[1], [], [1, 2], [-4, 3, 2], [1, 2]]},
+             {'n': 5, 'clauses': [[-5, 1], [2, -3, 4], [3], [-1, -2]]}, {'n': 1, 'clauses': []}]
+    heads = [[], ['c a comment\n'], ['c\n', 'c two\n'], []]
+    flagsets = [[], ['-q'], ['-p', '-v', '-c'], ['-v'], ['-c', '-q'], ['-p']]
+    i = 0
+    for F in forms:
+        for head in heads:
+            for fl in flagsets:
+                i += 1
+                if tier == 'quick' and i % 8 != 1:
+                    continue
+                yield {'F': F, 'head': head, 'flags': fl, 'seed': i, 'hashseed': str(i % 3)}
+
+
 SUBCHECKS = [
     SubCheck('library', run_lib, strategy=strat_lib, enumerate_cases=enum_lib, quick=3000, thorough=120000,
              rule="CNFs with 0..8 variables, 0..10 clauses (duplicates, empty clauses, unused variables) x each of the three arguments in {'fixed','shuffle', explicit sequence given as list / tuple / range (identity, reversal) / array.array / UserList, explicit invalid (wrong length, repeated, out of range, 0/2 flips, shifted base)} x seeds; complete slice: every explicit (flips, permutation, clause permutation) on two small formulas; oracle: explicit => equals the documented mapping, invalid => ValueError, random => hook witness verified (or backtracking search), same variable/clause counts, width multiset and model count, inputs untouched, description keeps the original text; non-trivial: >=3 variables, >=3 distinct clauses, some component not fixed",
@@ -377,4 +416,7 @@ SUBCHECKS = [
     SubCheck('tools', run_tool, strategy=strat_tool, quick=400, thorough=20000,
              rule="cnfshuffle (DIMACS on stdin, every subset of -p -v -c -q, --seed) and 'cnfgen <family> -T shuffle' with every subset of the three --no-* switches; oracle: witness verified, switched-off components are the identity, printed text equals the formula built under the same seed, all three off => clauses unchanged",
              required_labels=['cnfshuffle', 'cnfgen-T', 'all-off', 'hook-witness']),
+    SubCheck('pipe', run_pipe, enumerate_cases=enum_pipe,
+             rule="the cnfshuffle tool as a real process with its input on a pipe: 4 formulas x {no comment before the problem line, one, two comment lines} x 6 switch sets (quick: every eighth); oracle: exit status 0, DIMACS output, same counts and clause multiset shape, a signed renaming + clause permutation exists (searched), everything off = identity; non-trivial: >=3 variables and >=3 clauses",
+             required_labels=['pipe', 'headerless', 'with-comments']),
 ]
